@@ -7,6 +7,7 @@ package main
 // Also the handful of constants the wire format depends on.
 
 import (
+	"os"
 	"fmt"
 	"go/ast"
 	"go/token"
@@ -283,17 +284,24 @@ type semItem struct {
 func semItems(rel, fn string) []semItem {
 	v := canonOf(rel, fn)
 	var items []semItem
+	if os.Getenv("CANON_DEBUG") == fn {
+		defer func() {
+			for _, it := range items {
+				fmt.Fprintf(os.Stderr, "canon %s: %s\n", fn, it.src)
+			}
+		}()
+	}
 	for i, st := range v.stmts {
 		var pc []ast.Expr
 		if i < len(v.stmtPc) {
 			pc = v.stmtPc[i]
 		}
-		items = append(items, semItem{st.src, pc})
+		items = append(items, semItem{strings.ReplaceAll(st.src, "*&", ""), pc}) // `*&x` is x (a helper handing back the address of what it built)
 	}
 	for _, rs := range [][]canonReturn{v.returns, v.innerReturns} {
 		for _, r := range rs {
 			for _, res := range r.results {
-				items = append(items, semItem{norm(res), r.pc})
+				items = append(items, semItem{strings.ReplaceAll(norm(res), "*&", ""), r.pc})
 			}
 		}
 	}
@@ -302,6 +310,78 @@ func semItems(rel, fn string) []semItem {
 
 // semFacts: the first capture group of every canonical statement / returned expression of fn matching pattern, in order
 // (duplicates from a statement that is also a return are dropped).
+// leafHashBuild: how LeafHashForLeaf builds what it hashes. The buffer handed to sha256.Sum256 is recognised as "one prefix byte
+// followed by the tls.Marshal result" in either spelling:
+//	buf := append([]byte{P}, marshalled...)
+//	buf := make([]byte, 1+len(marshalled)); buf[0] = P; copy(buf[1:], marshalled)        (1 possibly a local constant)
+// part 0: [P]; part 1: ["$append"] when sha256.Sum256 is applied to such a buffer (the name of the first spelling is kept for
+// both), else the canonical text of its argument.
+func leafHashBuild(rel, leanName string, part int) func() string {
+	return func() string {
+		fn := "LeafHashForLeaf"
+		items := semItems(rel, fn)
+		var prefix []string
+		built := "" // canonical name of the buffer once it is known to be P‖marshalled
+		reAppend := regexp.MustCompile(`^\w+:=append\(\[\]byte\{(\w+)\},\$Marshal\.\.\.\)$`)
+		reMake := regexp.MustCompile(`^(\w+):=make\(\[\]byte,(.+)\+len\(\$Marshal\)\)$`)
+		one := func(k string) bool {
+			if k == "1" {
+				return true
+			}
+			// a local constant: the function declares exactly one, with value 1
+			n, ok := 0, false
+			ast.Inspect(mustFunc(rel, fn).Body, func(nd ast.Node) bool {
+				if gd, isGd := nd.(*ast.GenDecl); isGd && gd.Tok == token.CONST {
+					for _, sp := range gd.Specs {
+						vs := sp.(*ast.ValueSpec)
+						n += len(vs.Names)
+						ok = len(vs.Values) == 1 && src(vs.Values[0]) == "1"
+					}
+				}
+				return true
+			})
+			return strings.HasPrefix(k, "$decl(") && n == 1 && ok
+		}
+		for i, it := range items {
+			if m := reAppend.FindStringSubmatch(it.src); m != nil {
+				prefix, built = append(prefix, m[1]), "$append"
+			}
+			if m := reMake.FindStringSubmatch(it.src); m != nil && one(m[2]) {
+				v, k := m[1], m[2]
+				set0, copied := "", false
+				for _, jt := range items[i+1:] {
+					if strings.HasPrefix(jt.src, v+"[0]=") {
+						set0 = strings.TrimPrefix(jt.src, v+"[0]=")
+					}
+					if jt.src == "copy($make["+k+":],$Marshal)" {
+						copied = true
+					}
+					if strings.Contains(jt.src, "sha256.Sum256(") {
+						break // only what happens before the hash counts
+					}
+				}
+				if set0 != "" && copied {
+					prefix, built = append(prefix, set0), "$make"
+				}
+			}
+		}
+		var sum []string
+		re := regexp.MustCompile(`sha256\.Sum256\((.*)\)$`)
+		for _, it := range items {
+			if m := re.FindStringSubmatch(it.src); m != nil {
+				if built != "" && m[1] == built {
+					sum = append(sum, "$append")
+				} else {
+					sum = append(sum, m[1])
+				}
+			}
+		}
+		got := [][]string{prefix, sum}[part]
+		return fmt.Sprintf("/-- generated from %s func %s (canonical view): %s -/\ndef %s : List String := %s\n", rel, fn,
+			[]string{"the prefix byte of the hashed buffer", "what sha256.Sum256 is applied to ($append = prefix byte followed by the tls.Marshal result)"}[part], leanName, leanStrList(got))
+	}
+}
+
 func semFacts(rel, fn, pattern, leanName string) func() string {
 	return func() string {
 		re := regexp.MustCompile(pattern)
@@ -447,12 +527,12 @@ func init() {
 		{"SerializeSCTSignatureInput.precert", semLitFields(ser, "SerializeSCTSignatureInput", "PreCert", "sctInputPreFields")},
 		{"SerializeSCTSignatureInput.x509", semFacts(ser, "SerializeSCTSignatureInput", `^\w+\.X509Entry=(.*)$`, "sctInputX509")},
 		{"SerializeSCTSignatureInput.pre", semFacts(ser, "SerializeSCTSignatureInput", `^\w+\.PrecertEntry=&(\w+)\{`, "sctInputPreTarget")},
-		{"SerializeSCTSignatureInput.marshal", semFacts(ser, "SerializeSCTSignatureInput", `tls\.Marshal\(\$(?:var|lit)\((\w+)[\{\)]`, "sctInputMarshalled")},
+		{"SerializeSCTSignatureInput.marshal", semFacts(ser, "SerializeSCTSignatureInput", `tls\.Marshal\((?:\$(?:var|lit)\()?(\w+)[\{\)]`, "sctInputMarshalled")},
 		{"SerializeSTHSignatureInput.fields", semLitFields(ser, "SerializeSTHSignatureInput", "TreeHeadSignature", "sthInputFields")},
-		{"SerializeSTHSignatureInput.marshal", semFacts(ser, "SerializeSTHSignatureInput", `tls\.Marshal\(\$(?:var|lit)\((\w+)[\{\)]`, "sthInputMarshalled")},
+		{"SerializeSTHSignatureInput.marshal", semFacts(ser, "SerializeSTHSignatureInput", `tls\.Marshal\((?:\$(?:var|lit)\()?(\w+)[\{\)]`, "sthInputMarshalled")},
 		{"LeafHashForLeaf.marshal", semFacts(ser, "LeafHashForLeaf", `:=tls\.Marshal\((.*)\)$`, "leafHashMarshal")},
-		{"LeafHashForLeaf.data", semFacts(ser, "LeafHashForLeaf", `append\(\[\]byte\{(\w+)\},\$Marshal\.\.\.\)`, "leafHashPrefix")},
-		{"LeafHashForLeaf.hash", semFacts(ser, "LeafHashForLeaf", `sha256\.Sum256\((.*)\)$`, "leafHashSum")},
+		{"LeafHashForLeaf.data", leafHashBuild(ser, "leafHashPrefix", 0)},
+		{"LeafHashForLeaf.hash", leafHashBuild(ser, "leafHashSum", 1)},
 		{"RawLogEntryFromLeaf.unmarshal", semFacts(ser, "RawLogEntryFromLeaf", `tls\.Unmarshal\((.*)\)$`, "rawLogEntryUnmarshal")},
 		{"ExtraDataForChain.precert", semLitFields(ll, "ExtraDataForChain", "ct.PrecertChainEntry", "extraDataPrecertFields")},
 		{"ExtraDataForChain.chain", semLitFields(ll, "ExtraDataForChain", "ct.CertificateChain", "extraDataChainFields")},
